@@ -187,6 +187,8 @@ class Gen(object):
             k = r.randint(1, 5)
             nt.append(k)
             srcs.append(source.FloatSource('%s-uv%d' % (gid, t), numpy.array([self.f32() for _ in range(2 * k)], dtype=numpy.float32), ('S', 'T')))
+        if r.random() < 0.4:
+            r.shuffle(srcs)      # the position source need not come first
         g = geometry.Geometry(self.doc, gid, r.choice(['g', 'Geo_1', gid]), srcs, double_sided=r.random() < 0.2)
         for _ in range(r.randint(0, self.o['prims'])):
             il = source.InputList()
